@@ -123,10 +123,15 @@ def run(ctx):
     rng = ctx.rng
     nviol = 0
 
+    per_kind = {}
+
     def report(kind, what, rep, **kw):
+        # at most 4 replay files per kind (data-race reports are already distinct by signature),
+        # so that a flood of one kind cannot hide another
         nonlocal nviol
         nviol += 1
-        if nviol <= 5:
+        per_kind[kind] = per_kind.get(kind, 0) + 1
+        if per_kind[kind] <= (8 if kind == "data-race" else 4):
             ctx.violation(kind, what, rep, **kw)
 
     n_events = 20 if quick else 60
